@@ -2,6 +2,8 @@ import Rare.Proofs.C04
 import Rare.Proofs.C04Buf
 import Rare.Proofs.C04Tie
 import Rare.Proofs.C04More
+import Rare.Proofs.Batcher
+import Rare.Model.C04Sync
 import Rare.Gen.C04
 /-!
 # C04 — line splitting is exact; returned line buffers are never overwritten
@@ -448,5 +450,59 @@ theorem buf_alloc_bound (m : Nat) (data : Bytes) (script : List Step) (fuel k : 
   refine ⟨w, ?_, hn, by rw [h2] at hl; exact hl⟩
   rw [← h3]; exact infix_append_right _ hw
 
+
+/-! ## The batcher side of the anchor: `syncReaderToBatcher` over the real scanner configuration -/
+
+/-- `syncReaderToBatcher` (`readahead.NewImmediate(reader, ReadAheadBufferSize)` scanned into batches of
+    `batchSize` lines; the buffer size is the constant regenerated from /repo): for every stream, every
+    chunking / stall / fault script and every batch size, the scan ends; the batches hold, in order, exactly
+    the scanner's slices (no copy), which are the lines of the delivered bytes; every line carries its true
+    1-based number (`BatchStart + index`); no batch is empty; and every slice in every batch still reads
+    back as its line after the whole scan (late consumers see unmodified batches). -/
+theorem sync_batches_partition_lines (batchSize : Nat) (data : Bytes) (script : List Step) :
+    let o := syncRun batchSize data script
+    o.done = true ∧
+    (o.batches.flatMap (·.lines)).map (·.2) = splitLines o.final.delivered ∧
+    (o.batches.flatMap Batcher.lineNumbers).map (fun x => (x.1.2, x.2)) = (splitLines o.final.delivered).zipIdx 1 ∧
+    (∀ b ∈ o.batches, b.lines ≠ []) ∧
+    (∀ b ∈ o.batches, ∀ l ∈ b.lines, readView o.final.arrays l.1 = l.2) ∧
+    o.final.delivered <+: data := by
+  intro o
+  have hb : 1 ≤ Rare.Gen.readAheadBufferSize := by decide
+  have hrun : (Imm.run Rare.Gen.readAheadBufferSize data script) = (_, o.done, o.final) := rfl
+  have hdone := imm_terminates _ data script hb
+  have hsplit := imm_tokens_eq_split _ data script hb
+  have hstable := imm_tokens_stable _ data script hb
+  generalize htoks : (Imm.run Rare.Gen.readAheadBufferSize data script).1 = toks at *
+  have hbat : o.batches = Batcher.run batchSize (toks.map (·, false)) := by rw [← htoks]; rfl
+  have hinv := Batcher.inv_fold batchSize (toks.map (·, false)) (Batcher.inv_init (α := View × Bytes))
+  simp only [List.nil_append] at hinv
+  have hf := Batcher.finish_spec hinv
+  have hnum : o.batches.flatMap Batcher.lineNumbers = toks.zipIdx 1 := by
+    rw [hbat]; simpa [Batcher.run, List.map_map, Function.comp_def] using hf.1
+  have hlines : o.batches.flatMap (·.lines) = toks := by
+    have := congrArg (List.map Prod.fst) hnum
+    rw [List.zipIdx_map_fst, List.map_flatMap] at this
+    rw [← this]
+    congr 1
+    funext b
+    simp [Batcher.lineNumbers, List.zipIdx_map_fst]
+  refine ⟨hdone, ?_, ?_, ?_, ?_, hsplit.2⟩
+  · rw [hlines]; exact hsplit.1
+  · have hs1 : toks.map (·.2) = splitLines o.final.delivered := hsplit.1
+    rw [hnum, ← hs1, List.zipIdx_map]
+    apply List.map_congr_left
+    intro x _
+    rfl
+  · intro b hbm
+    rw [hbat] at hbm
+    exact hf.2 b (by simpa [Batcher.run, List.map_map, Function.comp_def] using hbm)
+  · intro b hbm l hl
+    apply hstable l
+    rw [← hlines]
+    exact List.mem_flatMap.mpr ⟨b, hbm, hl⟩
+
+example : ((syncRun 2 [97, 13, 10, 98, 10, 10, 99] [⟨1, none⟩, ⟨0, none⟩, ⟨9, some .fail⟩]).batches.map
+    fun b => (b.start, b.lines.map (·.2))) = [(1, [[97], [98]]), (3, [[], [99]])] := by decide
 
 end Rare.C04
